@@ -203,6 +203,12 @@ class DefRuntime:
         cls = self.classes[ph["k"]]
         d = ph["d"]
         try:
+            if d["d"] in ("require_partial", "ensure_partial"):
+                target = getattr(cls, ph["name"])
+                part = functools.partial(target)
+                deco = ic.require(self.cond(d["c"], "pre")) if d["d"] == "require_partial" else ic.ensure(self.cond(d["c"], "post"))
+                self.keep = getattr(self, "keep", []) + [deco(part)]
+                return "ok"
             if d["d"] == "invariant":
                 on = self.hist["con"][d["c"] - 1]["on"]
                 ic.invariant(self.cond(d["c"], "inv"), check_on=getattr(ic.InvariantCheckEvent, on))(cls)
@@ -407,6 +413,8 @@ def replay_history(hist: dict, expected: Dict[int, dict], ic: Any) -> List[dict]
                     ex = normalise_model_view(exp["views"][j - 1], hist["names"])
                     if act != ex:
                         own = (j == ph["k"]) or (ph["k"] in hist["cls"][j - 1]["mro"])
+                        if ph["d"]["d"].endswith("_partial"):
+                            own = False      # a new callable was decorated: no existing class may change at all
                         divergences.append({"step": nst + i, "cls": j,
                                             "clause": _view_clause(ex, act, j, j if own else j + 1), "exp": ex, "act": act})
                 if "lids" in exp:
